@@ -2,6 +2,24 @@
   Lemmas for KestrelProps/NoiseSrc.lean: the Noise X handshake and the crypto wrappers of lib.rs as translated mechanically by
   tools/rs2lean_noise.py (`Kestrel.NoiseSrc`, KestrelModel/GeneratedNoise.lean) against the hand-written model
   (KestrelModel/Noise.lean, Aead.lean, Prim/Sha256.lean, RsIO.lean).
+
+  How these proofs are written (so that a harmless change of the Rust source does not break them, and a breaking one does).
+  The generated file changes with every maintenance change of noise.rs / lib.rs: helpers are extracted, literals get names, locals
+  are renamed, `if` / early `return` / `match` / `?` are exchanged for one another.  The translator emits named constants and
+  functions outside its TARGETS table as `@[simp] def`.  The lemmas below therefore
+    * never restate a piece of a generated definition: each is `<generated function> args = <model term>`, and the proof reaches
+      the model term by `simp [<the function>, <lemmas about the functions it calls>]` after a case split on what the MODEL
+      branches on (`O.dh ..`, `msg.length < 96`, `Sym.decryptAndHash ..`); nothing is matched against the shape of the definition
+      (no `generalize` / `rw` of a generated subterm, no `simp only` with a fixed list of the locals' equations);
+    * treat constructors and accessors (`KeyPair.new`, `as_bytes`, `has_key`, …) as transparent (`attribute [local simp]` below);
+    * facts about slices are general lemmas with side conditions `simp` discharges (`copyFromSlice_full`), not equations about
+      `List.replicate 12 0` at one offset.
+  Sensitivity is not traded: every lemma still states equality with the hand-written model for all inputs.
+  tools/selftest_noise.py re-translates and re-builds this file for the harmless patches seeded/B3-*, B4-*, sixteen further
+  hand-made harmless rewrites, every seeded breaking patch on noise.rs / lib.rs, the ten hand-made breaking edits of the original
+  robustness test (ss DH error ignored; es / ss key pairs swapped; `mix_hash(re)` dropped; nonce big-endian; nonce offset 4 → 0;
+  payload-length check removed; `< 96` → `< 80`; second `hkdf_noise` output from 0x01) and fourteen breaking edits on top of the
+  harmless patches.
 -/
 import KestrelModel.GeneratedNoise
 import KestrelModel.Noise
@@ -10,6 +28,14 @@ import KestrelProofs.Aead
 set_option linter.unusedSimpArgs false
 namespace Kestrel.NoiseSrc
 open Kestrel Kestrel.Rs Kestrel.RsNoise
+
+/-! ### constructors and accessors
+
+  The translator marks named constants and extracted helper functions `@[simp]`, so `simp` sees through them.  The wanted
+  (TARGETS) functions below are constructors and accessors that a maintenance change may start or stop using anywhere
+  (`KeyPair::new(a, b)` for a struct literal, `x.as_bytes()` for `&x.key`): in this file `simp` sees through them too. -/
+attribute [local simp] KeyPair.new PayloadKey.new PayloadKey.as_bytes PublicKey.as_bytes PrivateKey.as_bytes PrivateKey.generate
+  CipherState.new CipherState.initialize_key CipherState.has_key CipherState.set_nonce SymmetricState.get_handshake_hash
 
 /-! ### the record of primitives the translated wrappers compute over orion -/
 
@@ -70,18 +96,13 @@ def ofSym (s : Sym) : SymmetricState :=
 
 variable (O : Orion) (kdf : Bytes → Bytes → Bytes)
 
-theorem pad_prefix (n : Nat) (z : α) (name : List α) (h : name.length ≤ n) :
-    Rs.copyFromSlice ((List.replicate n z).take name.length) name ++ (List.replicate n z).drop name.length =
-      name ++ List.replicate (n - name.length) z := by
-  rw [copyFromSlice_full _ _ (by simp; omega), List.drop_replicate]
-
 theorem new_eq (name : Bytes) : SymmetricState.new O name = ofSym (Sym.init (primsOf O kdf) name) := by
   unfold SymmetricState.new Sym.init ofSym
   by_cases h : name.length ≤ 32
-  · simp only [HASH_LEN, h, decide_true, if_true, pad_prefix 32 (0 : UInt8) name h, CipherState.initialize_key,
-      CipherState.new, PayloadKey.new, zeros]
-  · simp only [HASH_LEN, h, decide_false, if_false, CipherState.initialize_key, CipherState.new, PayloadKey.new, sha256_eq,
-      primsOf_hash, Bool.false_eq_true]
+  · have h' : ¬ 32 < name.length := by omega
+    simp [-List.reduceReplicate, h, h', copyFromSlice_full, Nat.min_eq_left h, zeros]
+  · have h' : 32 < name.length := by omega
+    simp [h, h']
 
 theorem mix_hash_ofSym (s : Sym) (d : Bytes) :
     SymmetricState.mix_hash O (ofSym s) d = ofSym (s.mixHash (primsOf O kdf) d) := by
@@ -102,10 +123,9 @@ theorem decrypt_and_hash_ofSym (s : Sym) (ct : Bytes) :
       match s.decryptAndHash (primsOf O kdf) ct with
       | none => (.error .decrypt, ofSym s)
       | some (pt, s') => (.ok pt, ofSym s') := by
-  unfold SymmetricState.decrypt_and_hash CipherState.decrypt_with_ad Sym.decryptAndHash
-  simp only [ofSym, primsOf, PayloadKey.as_bytes, unwrap_eq_getD]
   cases h : chapoly_decrypt_noise O (s.k.getD []) s.n s.h ct <;>
-    simp [h, Except.toOption, From_ChaPolyDecryptError_for_NoiseError, CipherState.set_nonce, SymmetricState.mix_hash, Sym.mixHash, primsOf]
+    simp [SymmetricState.decrypt_and_hash, CipherState.decrypt_with_ad, Sym.decryptAndHash, ofSym, primsOf, unwrap_eq_getD, h,
+      Except.toOption, SymmetricState.mix_hash, Sym.mixHash]
 
 
 theorem init_x_eq (ini : Bool) (pro s spk : Bytes) (e epk rs : Option Bytes) :
@@ -116,8 +136,7 @@ theorem init_x_eq (ini : Bool) (pro s spk : Bytes) (e epk rs : Option Bytes) :
         e := if e.isSome && epk.isSome then some { private_key := e.getD [], public_key := epk.getD [] } else none,
         rs := rs, re := none, initiator := ini, message_patterns := [[Token.E, Token.ES, Token.S, Token.SS]] } := by
   unfold HandshakeState.init_x
-  simp only [new_eq O kdf, mix_hash_ofSym O kdf, KeyPair.new, PublicKey.as_bytes, unwrap_eq_getD, List.nil_append]
-  cases ini <;> rfl
+  cases ini <;> cases e <;> cases epk <;> simp [new_eq O kdf, mix_hash_ofSym O kdf, unwrap_eq_getD] <;> rfl
 
 
 @[simp] theorem okOr_some (a : α) : Rs.okOr (some a) = .ok a := rfl
@@ -151,8 +170,9 @@ theorem write_message_eq (rand : Nat → Bytes) (pro s spk rs e epk payload : By
       simp [ofSym]
 
 
+/-- after `mix_key` the cipher state has a key (`has_key()` is `key.is_some()`; in the form `simp` brings it to) -/
 theorem has_key_mixKey (s : Sym) (d : Bytes) :
-    CipherState.has_key (ofSym (Sym.mixKey (primsOf O kdf) s d)).cipher_state = true := rfl
+    (ofSym (Sym.mixKey (primsOf O kdf) s d)).cipher_state.key.isSome = true := rfl
 
 theorem try_from_mapError (b : Bytes) :
     Except.mapError (fun (_ : List UInt8) => Noise.Err.other) (PublicKey.try_from b) =
@@ -219,11 +239,9 @@ theorem try_from_ok (b : Bytes) (h : b.length = 32) : PublicKey.try_from b = .ok
 
 theorem to_public_eq (hpub : ∀ k pk, O.pub k = some pk → pk.length = 32) (k : Bytes) :
     PrivateKey.to_public O k = Rs.okOr (O.pub k) := by
-  unfold PrivateKey.to_public
-  rw [x25519_derive_public_eq]
   cases h : O.pub k with
-  | none => rfl
-  | some pk => simp [okOr_some, try_from_ok pk (hpub k pk h)]
+  | none => simp [PrivateKey.to_public, x25519_derive_public_eq, h]
+  | some pk => simp [PrivateKey.to_public, x25519_derive_public_eq, h, try_from_ok pk (hpub k pk h)]
 
 /-- `write_message` without an ephemeral pair generates one (`PrivateKey::generate`, `to_public`) and goes on as if it had been given -/
 theorem write_message_fresh (hpub : ∀ k pk, O.pub k = some pk → pk.length = 32) (rand : Nat → Bytes)
@@ -247,20 +265,12 @@ theorem init_x_initiator (pro s spk : Bytes) (e epk : Option Bytes) (rs : Bytes)
 theorem noise_encrypt_eq (hpub : ∀ k pk, O.pub k = some pk → pk.length = 32) (rand : Nat → Bytes)
     (s spk rs : Bytes) (e epk : Option Bytes) (pro pk : Bytes) :
     noise_encrypt O rand s spk rs e epk pro pk = RsIO.noiseEncrypt (primsOf O kdf) rand s spk rs e epk pro pk := by
-  have key : ∀ hs : HandshakeState, (match (HandshakeState.write_message O rand hs (PayloadKey.as_bytes pk)).1 with
-      | .error err => (.error err : Except Noise.Err RsIO.NoiseEncryptMsg)
-      | .ok nh => .ok { ciphertext := nh.message, handshake_hash := nh.handshake_hash }) =
-      match wmView (HandshakeState.write_message O rand hs pk) with
-      | .error err => .error err
-      | .ok (m, h) => .ok ⟨m, h⟩ := by
-    intro hs
-    unfold wmView PayloadKey.as_bytes
-    cases (HandshakeState.write_message O rand hs pk).1 <;> rfl
   have main : noise_encrypt O rand s spk rs e epk pro pk =
       match wmView (HandshakeState.write_message O rand (HandshakeState.init_x O true pro s spk e epk (some rs)) pk) with
       | .error err => .error err
       | .ok (m, h) => .ok ⟨m, h⟩ := by
-    rw [← key]; rfl
+    rcases hX : HandshakeState.write_message O rand (HandshakeState.init_x O true pro s spk e epk (some rs)) pk with ⟨res, hs⟩
+    cases res <;> simp [noise_encrypt, wmView, hX, Except.map]
   rw [main, init_x_initiator O kdf]
   unfold RsIO.noiseEncrypt
   have fresh := write_message_fresh O hpub rand (ofSym (Noise.initI (primsOf O kdf) pro rs))
@@ -281,42 +291,33 @@ theorem noise_decrypt_eq (r rpk pro msg : Bytes) :
     noise_decrypt O r rpk pro msg = RsIO.noiseDecrypt (primsOf O kdf) r rpk pro msg := by
   unfold RsIO.noiseDecrypt
   rw [← read_message_eq O kdf pro r rpk msg]
-  unfold noise_decrypt rmView
-  dsimp only
-  generalize HandshakeState.read_message O (HandshakeState.init_x O false pro r rpk none none none) msg = X
-  obtain ⟨res, hs⟩ := X
+  rcases hX : HandshakeState.read_message O (HandshakeState.init_x O false pro r rpk none none none) msg with ⟨res, hs⟩
   cases res with
-  | error err => rfl
+  | error err => simp [noise_decrypt, rmView, hX]
   | ok nh =>
-    by_cases h : nh.message.length = 32 <;> simp [h, PayloadKey.new, unwrap_eq_getD]
+    by_cases h : nh.message.length = 32 <;> simp [noise_decrypt, rmView, hX, h, PayloadKey.new, unwrap_eq_getD]
 
 
 /-! ### item 3: the counter-nonce AEAD and the two HKDFs -/
-
-theorem nonce_layout (n : Nat) :
-    (List.replicate 12 (0 : UInt8)).take 4 ++ Rs.copyFromSlice ((List.replicate 12 (0 : UInt8)).drop 4) (natLE 8 n) = noiseNonce n := by
-  rw [copyFromSlice_full _ _ (by simp [natLE_length])]
-  rfl
 
 theorem chapoly_encrypt_ietf_eq (k nonce p ad : Bytes) : chapoly_encrypt_ietf O k nonce p ad = O.chSeal k nonce p ad := by
   simp [chapoly_encrypt_ietf, chapolySeal, TAG_SIZE]
 
 theorem chapoly_encrypt_noise_eq (k : Bytes) (n : Nat) (ad p : Bytes) :
     chapoly_encrypt_noise O k n ad p = O.chSeal k (noiseNonce n) p ad := by
-  unfold chapoly_encrypt_noise
-  simp only [nonce_layout, chapoly_encrypt_ietf_eq]
+  simp [chapoly_encrypt_noise, chapoly_encrypt_ietf_eq, copyFromSlice_full, natLE_length] <;> rfl
 
 theorem chapoly_decrypt_ietf_eq (k nonce c ad : Bytes) :
     chapoly_decrypt_ietf O k nonce c ad = if c.length < 16 then .error () else Rs.okOr (O.chOpen k nonce c ad) := by
   unfold chapoly_decrypt_ietf
   by_cases h : c.length < 16
-  · simp [h, TAG_SIZE]
-  · cases ho : O.chOpen k nonce c ad <;> simp [h, TAG_SIZE, chapolyOpen, ho, Except.mapError]
+  · simp [h, TAG_SIZE, Rs.checkedSub_of_lt h]
+  · cases ho : O.chOpen k nonce c ad <;>
+      simp [h, TAG_SIZE, chapolyOpen, ho, Except.mapError, Rs.checkedSub_of_le (Nat.le_of_not_lt h)]
 
 theorem chapoly_decrypt_noise_eq (k : Bytes) (n : Nat) (ad c : Bytes) :
     chapoly_decrypt_noise O k n ad c = if c.length < 16 then .error () else Rs.okOr (O.chOpen k (noiseNonce n) c ad) := by
-  unfold chapoly_decrypt_noise
-  simp only [nonce_layout, chapoly_decrypt_ietf_eq]
+  simp [chapoly_decrypt_noise, chapoly_decrypt_ietf_eq, copyFromSlice_full, natLE_length] <;> rfl
 
 theorem chapoly_noise_concrete_enc (k : Bytes) (n : Nat) (ad p : Bytes) :
     chapoly_encrypt_noise concreteOrion k n ad p = chapolyNoise.enc k n ad p := by
@@ -332,15 +333,7 @@ theorem chapoly_noise_concrete_dec (k : Bytes) (n : Nat) (ad c : Bytes) :
 theorem hkdf_noise_eq (hlen : ∀ k d, (O.hmac k d).length = 32) (ck ikm : Bytes) :
     hkdf_noise O ck ikm =
       (O.hmac (O.hmac ck ikm) [0x01], O.hmac (O.hmac ck ikm) (O.hmac (O.hmac ck ikm) [0x01] ++ [0x02])) := by
-  unfold hkdf_noise
-  have h1 : Rs.copyFromSlice ((List.replicate 33 (0 : UInt8)).take 32) (O.hmac (O.hmac ck ikm) [1]) = O.hmac (O.hmac ck ikm) [1] :=
-    copyFromSlice_full _ _ (by simp [hlen])
-  have h2 : ∀ x : Bytes, x.length = 32 → (x ++ (List.replicate 33 (0 : UInt8)).drop 32).take 32 = x := by
-    intro x hx; simp [hx]
-  have h3 : ∀ x : Bytes, x.length = 32 → (x ++ (List.replicate 33 (0 : UInt8)).drop 32).drop 32 = [0] := by
-    intro x hx; simp [hx]
-  simp only [hmac_sha256_eq, h1, h2 _ (hlen _ _), h3 _ (hlen _ _)]
-  rfl
+  simp [hkdf_noise, copyFromSlice_full, hlen, Rs.set]
 
 theorem hkdf_noise_concrete (ck ikm : Bytes) : hkdf_noise concreteOrion ck ikm = hkdfNoise ck ikm := by
   rw [hkdf_noise_eq concreteOrion (fun k d => hmacSha256_length k d)]; rfl
